@@ -1049,6 +1049,22 @@ func ruleC07Query(c *Checker) {
 		case "git":
 			refPass := passEdges("ref")
 			c.check(len(refPass) > 0, R, name, "rejects keys other than ref", p.Pos(fn.Pos()), "a test against \"ref\" with a rejecting edge exists", "the git implementation no longer rejects query arguments other than 'ref'")
+			for _, e := range refPass {
+				ifi := e.From.Instrs[len(e.From.Instrs)-1].(*ssa.If)
+				cnd, _ := stripNot(ifi.Cond)
+				exact := false
+				if bo, ok := cnd.(*ssa.BinOp); ok && (bo.Op == token.EQL || bo.Op == token.NEQ) {
+					kx, cx := constString(bo.X)
+					ky, cy := constString(bo.Y)
+					other := bo.X
+					if cx {
+						other = bo.Y
+					}
+					_, isCall := canon(other).(*ssa.Call)
+					exact = ((cx && kx == "ref") || (cy && ky == "ref")) && !isCall
+				}
+				c.check(exact, R, name, "argument name compared exactly", p.Pos(ifi.Cond.Pos()), "key == \"ref\" on the key as spelled", "the argument name is not compared with \"ref\" exactly (a case-folding or prefix test, or a comparison of a transformed key): url.Values keeps keys as spelled, so REF=main is accepted as an argument that is not 'ref' — Query().Get(\"ref\") is empty and the pin is silently dropped — and ref=a&Ref=b passes as two single-valued arguments")
+			}
 			for i, r := range succ {
 				// every nil return is after the key loop: not inside it and dominated by its header
 				inKeyLoop := false
